@@ -401,17 +401,22 @@ PROPS["C13"] = dict(
     lean_props=["MayVerif.Props.C13"],
     families=[
         dict(mode="live", name="panic", quick=240, thorough=3000, nontrivial=r"child\.panic", timeout=600),
-        # one scenario per process (the check starts min(12, count) processes): known finding F10 taints a process
-        dict(mode="live", name="panicscope", quick=12, thorough=12, nontrivial=r"child\.panic", timeout=600),
+        # a scope owner re-raises a child's panic and then has to wait for a slow child (F10.patch: it no longer waits inside the unwind)
+        dict(mode="live", name="panicscope", quick=120, thorough=1500, nontrivial=r"child\.panic", timeout=600),
+        # the same around cqueue::scope (owner panic / re-thrown arm panic while an arm still runs); oracles only: the cqueue events are C16's
+        dict(mode="live", name="paniccq", quick=60, thorough=600, nontrivial=r"join\.state", timeout=600),
+        # the residue of F10 (open known finding F10rw): RwLockReadGuard::drop -> read_unlock -> rlock.lock() parks under reader
+        # contention, also while the reader unwinds. Oracles only, stable prefix `F10rw:`; one scenario per process
+        dict(mode="live", name="panicrw", quick=12, thorough=12, nontrivial=r".", timeout=600),
     ],
     trusted_base=TB_COMMON + [
         "rustc's unwinding (every guard on the stack is dropped exactly once, innermost first) and the generator crate's catch_unwind / panic capture are taken by contract",
         "pool.rs and Done::drop_coroutine are not hooked: the pool / local-data steps of worker_survives are modelled from the source and tied to the code only by the oracles (coroutines spawned after the panics complete on every worker)",
-        "thread::panicking() is modelled as 'this coroutine is unwinding' (false of the code when a coroutine parks while it unwinds: known finding F10)",
+        "thread::panicking() is modelled as 'this coroutine is unwinding'; std keeps the flag per thread, so this holds of the code only while no coroutine is suspended during an unwind (finding F10). With F10.patch the scope exits (coroutine::scope, cqueue::scope) wait outside the unwind; the assumption is checked on every run by the F10 probe of families scope / panic / panicscope / paniccq (strict: an 'F10:' line is a violation). Not covered by the patch: Park::drop's wait_kernel spin and user destructors that block while unwinding (README-C14)",
         "locks are used without contention in family panic: waiter hand-over is C05/C12; the model here uses their specification held -> released",
     ],
     assumptions=[
-        "family panicscope is checked by its oracles only (its traces are not replayed): it exists to exhibit F10, whose consequences deviate from every model that trusts thread::panicking()",
+        "family paniccq is checked by its oracles only (its traces are not replayed: the cqueue events are C16's model)",
         "select! owners re-raising an arm's panic (F9) belong to C16",
     ],
     rule="live mode: 2-5 rounds x 2-5 coroutines (panic before/after yields, holding a Mutex and/or RwLock write guard; holders cancelled while holding; unrelated workers) over the reused stack pool, 8 fresh coroutines afterwards; non-trivial = at least one injected panic; distinct = SHA-1 of the canonical trace",
@@ -422,8 +427,8 @@ PROPS["C14"] = dict(
     families=[dict(mode="live", name="scope", quick=360, thorough=6000, nontrivial=r"scope\.spawn", timeout=600)],
     trusted_base=TB_COMMON + [
         "Blocker park/unpark is the binary token of C02; the cancel behaviour of a park (returns at once for a cancelled coroutine, raises Cancel unless already unwinding) is modelled from yield_now.rs / cancel.rs and is not in this layer's trace (cancel.rs is kept out of the filter, see README-C14: use-after-free in subscribe under perturbation)",
-        "rustc's unwinding (Drop for Scope runs when f or a dtor unwinds) is taken by contract",
-        "thread::panicking() is modelled as 'this coroutine is unwinding' (known finding F10)",
+        "rustc's unwinding / catch_unwind (scope catches a panic of f and of every dtor, runs all dtors and resumes the first payload; before F10.patch: Drop for Scope runs when f or a dtor unwinds) is taken by contract",
+        "thread::panicking() is modelled as 'this coroutine is unwinding' (finding F10; with F10.patch a scope exit never waits inside an unwind, checked on every run by the strict F10 probe of the family)",
         "the variant of JoinState::join (pinned / F5.patch) is detected from the trace at the first scoped join; scope_exit_after_children is proved for the fixed variant, _partial + witness for the pinned one",
     ],
     assumptions=[
